@@ -6,6 +6,7 @@ after every operation the result, list(c), len(c), every c[i] and all triples of
 the graph are observed) and `collreads` (reads on cyclic / broken / forked chains)."""
 from __future__ import annotations
 
+import gc
 import itertools
 import signal
 import warnings
@@ -31,7 +32,7 @@ for _i in list(range(1, 15)) + [NIL, FIRST, REST, HEAD]:
 for _a, _b in itertools.combinations(list(range(1, 15)), 2):
     assert term(_a) != term(_b) and not (term(_a) == term(_b))
 
-OP_TIMEOUT = 0.25  # CPU seconds: a single Collection call that computes longer is a hang
+OP_TIMEOUT = 0.5  # CPU seconds: a single Collection call that computes longer is a hang
 
 
 def _vtalarm(signum, frame):
@@ -42,11 +43,15 @@ def guarded(fn, seconds=OP_TIMEOUT):
     """run fn under a CPU-time alarm (ITIMER_VIRTUAL: immune to machine load); the enclosing
     per-case wall-clock alarm of the driver stays armed"""
     signal.signal(signal.SIGVTALRM, _vtalarm)
+    was = gc.isenabled()
+    gc.disable()  # a full collection of the driver's large heap must not be mistaken for a hang
     signal.setitimer(signal.ITIMER_VIRTUAL, seconds)
     try:
         return fn()
     finally:
         signal.setitimer(signal.ITIMER_VIRTUAL, 0)
+        if was:
+            gc.enable()
 
 
 class World:
@@ -507,7 +512,7 @@ ASSUMPTIONS = [
     "BNode() returns a node that does not occur in the graph (model: a counter above every cell)",
     "the graph is a plain Graph over the default Memory store (objects of (s, p) iterate in insertion order)",
     "the collection's uri is a blank node (truthy, not rdf:nil); every first/rest triple of the graph belongs to this collection",
-    "members are RDF terms of the pool (falsy literals included); an operation that computes longer than 0.25 CPU-seconds is counted as a hang",
+    "members are RDF terms of the pool (falsy literals included); an operation that computes longer than 0.5 CPU-seconds is counted as a hang",
 ]
 RULE = ("collection: start list of length 0-5 over a vocabulary of 2-4 members (always a falsy literal, duplicates frequent), 0-3 noise "
         "triples, 1-10 operations steered by the Python list the history produces (70% of the cases stay outside the known-finding "
